@@ -490,3 +490,27 @@ Proof.
     try (destruct Hd as [Hd|Hd]; [contradiction|exfalso; apply Hd; cbn; auto]).
   apply Z.eqb_eq in Ht. subst. apply Z.leb_refl.
 Qed.
+
+(* ---- the caller's error under the teardown race (tcp / unix) ---- *)
+Lemma caller_outcome_too_large linger tr v still_writing r :
+  rejected v = true ->
+  (linger = true \/ still_writing = false \/ r = FrameFirst \/ ~ In tr [Tcp; Unix]) ->
+  caller_outcome linger tr v still_writing r = OTooLarge.
+Proof.
+  intros Hr Hg. unfold caller_outcome.
+  destruct tr; try (apply caller_sees_too_large; exact Hr);
+  destruct v; try discriminate; try (apply caller_sees_too_large; exact Hr);
+  destruct r; try (apply caller_sees_too_large; exact Hr);
+  (destruct Hg as [->|[->|[Hg|Hg]]];
+   [rewrite andb_false_r|cbn [andb]|discriminate|exfalso; apply Hg; cbn; auto]);
+  apply caller_sees_too_large; exact Hr.
+Qed.
+
+Lemma caller_outcome_refuted :
+  ~ (forall tr v still_writing r, rejected v = true ->
+       caller_outcome false tr v still_writing r = OTooLarge).
+Proof. intros H. specialize (H Tcp RejectInBand true TeardownFirst eq_refl). discriminate. Qed.
+
+Lemma caller_outcome_lingering tr v still_writing r :
+  rejected v = true -> caller_outcome true tr v still_writing r = OTooLarge.
+Proof. intros Hr. apply caller_outcome_too_large; auto. Qed.
